@@ -185,6 +185,9 @@ _designed = {}
 RAMAN_SIM = {'raman_params': {'flag': True, 'result_spatial_resolution': 10e3, 'solver_spatial_resolution': 50},
              'nli_params': {'method': 'gn_model_analytic', 'dispersion_tolerance': 1, 'phase_shift_tolerance': 0.1,
                             'computed_channels': None}}
+GGN_APPROX_SIM = {'raman_params': {'flag': False},
+                  'nli_params': {'method': 'ggn_approx', 'dispersion_tolerance': 1, 'phase_shift_tolerance': 0.1,
+                                 'computed_channels': None}}
 RAMAN_SIM_GGN = {'raman_params': {'flag': True, 'result_spatial_resolution': 10e3, 'solver_spatial_resolution': 50},
                  'nli_params': {'method': 'ggn_spectrally_separated', 'dispersion_tolerance': 1,
                                 'phase_shift_tolerance': 0.1, 'computed_channels': [1, 3]}}
@@ -262,6 +265,7 @@ def gen_topology(rng, max_roadms=3, raman=False):
         hops[0][0]['con_out'] = rng.choice([0.5, 1.0])
         hops[0][0]['fused_after'] = False
         hops[0][0]['disp'] = None
+        hops[0][0]['pumps'] = rng.choice(['above', 'above+below', 'below_strong', 'below_co', 'below_co_first', 'below_only'])
         return {'hops': hops, 'roadms': [None, None]}
     roadms = []
     for _ in range(n_roadm):
@@ -270,6 +274,24 @@ def gen_topology(rng, max_roadms=3, raman=False):
                'psw': rng.choice([2.0e-4, 1.5e-4, 4e-4])}[kind]
         roadms.append({'kind': kind, 'val': val, 'variety': rng.choice([None, None, 'detailed_impairments'])})
     return {'hops': hops, 'roadms': roadms}
+
+
+# Raman pump sets: the usual pumps above the band, and sets with a pump at a LOWER frequency than the C-band channels
+# (190 / 190.9 THz: below every carrier of a C-band comb, never on a carrier)
+PUMP_SETS = {
+    'above': [{'power': 224.403e-3, 'frequency': 205e12, 'propagation_direction': 'counterprop'},
+              {'power': 231.135e-3, 'frequency': 201e12, 'propagation_direction': 'counterprop'}],
+    'above+below': [{'power': 200e-3, 'frequency': 205e12, 'propagation_direction': 'counterprop'},
+                    {'power': 150e-3, 'frequency': 201e12, 'propagation_direction': 'counterprop'},
+                    {'power': 250e-3, 'frequency': 190e12, 'propagation_direction': 'counterprop'}],
+    'below_strong': [{'power': 60e-3, 'frequency': 203e12, 'propagation_direction': 'counterprop'},
+                     {'power': 350e-3, 'frequency': 190.9e12, 'propagation_direction': 'counterprop'}],
+    'below_co': [{'power': 120e-3, 'frequency': 204e12, 'propagation_direction': 'counterprop'},
+                 {'power': 200e-3, 'frequency': 190e12, 'propagation_direction': 'coprop'}],
+    'below_co_first': [{'power': 200e-3, 'frequency': 190e12, 'propagation_direction': 'coprop'},
+                       {'power': 120e-3, 'frequency': 204e12, 'propagation_direction': 'counterprop'}],
+    'below_only': [{'power': 300e-3, 'frequency': 190.5e12, 'propagation_direction': 'counterprop'}],
+}
 
 
 RKEY = {'pch': 'target_pch_out_db', 'psd': 'target_psd_out_mWperGHz', 'psw': 'target_out_mWperSlotWidth'}
@@ -303,9 +325,7 @@ def _line(spans, d, h):
         if sp.get('raman'):
             f = nets.fiber(f'fiber {d}{h}.{k}', sp['len'], 'SSMF', **params)
             f['type'] = 'RamanFiber'
-            f['operational'] = {'temperature': 283, 'raman_pumps': [
-                {'power': 224.403e-3, 'frequency': 205e12, 'propagation_direction': 'counterprop'},
-                {'power': 231.135e-3, 'frequency': 201e12, 'propagation_direction': 'counterprop'}]}
+            f['operational'] = {'temperature': 283, 'raman_pumps': copy.deepcopy(PUMP_SETS[sp.get('pumps', 'above')])}
         else:
             f = nets.fiber(f'fiber {d}{h}.{k}', sp['len'], sp['fiber'], **params)
         line.append(f)
@@ -317,6 +337,29 @@ def _line(spans, d, h):
                 op['in_voa'] = sp['in_voa']
             line.append(nets.edfa(f'edfa {d}{h}.{k}', sp['amp'], op))
     return line
+
+
+def pump_order_mismatch(el):
+    """input class of the finding `raman-pump-order`: a RamanFiber whose pump list names a counter-propagating pump before
+    a co-propagating one (the Raman solver stores co-propagating pumps first, the spontaneous-ASE loop uses list order)"""
+    pumps = getattr(el, 'raman_pumps', None) or []
+    dirs = [p.propagation_direction for p in pumps]
+    return 'coprop' in dirs and 'counterprop' in dirs[:len(dirs) - 1 - dirs[::-1].index('coprop')]
+
+
+def classify_raman_pump_order(res, rec):
+    """failures of a case in which such a fibre was handed a negative ASE power belong to the finding class
+    `raman-pump-order` (the wrong ASE contaminates every later element of the path)"""
+    hit = False
+    for call in rec.calls:
+        if call.kind == 'RamanFiber' and pump_order_mismatch(call.el):
+            if any(kind == 'addAse' and np.any(arg < 0) for kind, _, arg in call.ops):
+                hit = True
+    if hit:
+        for f in res.failures:
+            f['cls'] = 'raman-pump-order'
+        res.stats['finding_raman_pump_order_cases'] += 1
+    return hit
 
 
 def dispersion_params(disp):
@@ -507,11 +550,59 @@ def gen_path_case(rng, tier, shuffle=False):
         if name == 'raman':
             sim = 'raman_ggn' if (tier == 'thorough' and rng.random() < 0.3) else 'raman'
     nch = rng.choice([2, 4, 8, 12, 20]) if sim else rng.choice([1, 2, 5, 12, 24, 40 if tier == 'quick' else 96])
+    ggn = None
+    if sim is None and mb is None and not shuffle and rng.random() < 0.22:
+        # ggn_approx with an explicit computed_channels list that leaves out the first and/or last channels of a
+        # mixed-rate comb (a 32 GBaud / 50 GHz block next to a 64 GBaud / 75 GHz block, as in initial_spectrum2.json,
+        # with a power offset per block): the outer channels take their NLI from beyond the computed range
+        sim = 'ggn_approx'
+        na, nb = rng.choice([6, 10, 16, 24]), rng.choice([6, 10, 14, 20])
+        lo_out, hi_out = rng.choice([0, 1, 3, 5]), rng.choice([2, 4, 6, 8])
+        if rng.random() < 0.3:
+            lo_out, hi_out = hi_out, 0
+        lo_out = min(lo_out, (na + nb) // 3)
+        hi_out = min(hi_out, (na + nb) // 3)              # at least a third of the comb lies inside the computed range
+        swap = rng.random() < 0.35                      # wide block first
+        n1 = nb if swap else na
+        first, last = 1 + lo_out, na + nb - hi_out
+        comp = {first, last}
+        # the two outermost computed channels on either side of the block boundary where possible: steep gradient
+        if hi_out and last > n1 + 1:
+            comp.add(rng.choice([n1, n1 - 1, n1 + 1]))
+        if lo_out and first < n1:
+            comp.add(rng.choice([n1, n1 + 1, n1 + 2]))
+        for _ in range(rng.choice([0, 1, 2])):
+            comp.add(rng.randint(first, last))
+        ggn = {'na': na, 'nb': nb, 'swap': swap, 'comp': sorted(c for c in comp if first <= c <= last),
+               'off_a': rng.choice([0.0, 0.0, 2.0, -3.0, 3.0]), 'off_b': rng.choice([0.0, 0.0, 3.0, -2.0]),
+               'gap': rng.choice([0, 0, 2, 8])}
     return {'kind': 'shuffle' if shuffle else 'path', 'net': net, 'src': src, 'dst': dst, 'pick': [rng.random(), rng.random()],
-            'sim': sim, 'uniform_grid': (not shuffle) and mb is None and rng.random() < 0.2, 'nch': nch, 'mb': mb,
+            'sim': sim, 'uniform_grid': (not shuffle) and mb is None and ggn is None and rng.random() < 0.2, 'nch': nch,
+            'mb': mb, 'ggn': ggn,
             'cseed': rng.getrandbits(32), 'pmax_dbm': 10.0 if rng.random() < 0.3 else 3.0,
             'order': [rng.random() for _ in range(64)] if shuffle else None}
 
+
+
+def mixed_rate_comb(g, bands):
+    """two adjacent blocks (32 GBaud in 50 GHz slots, 64 GBaud in 75 GHz slots) inside the widest common band, equal launch
+    power, a power offset per block (applied on top of the ROADM target); truncated where the band ends"""
+    lo, hi = max(bands, key=lambda b: b[1] - b[0])
+    blocks = [(32_000_000_000, 50_000_000_000, g['na'], g['off_a'], 'A-32G'),
+              (64_000_000_000, 75_000_000_000, g['nb'], g['off_b'], 'B-64G')]
+    if g['swap']:
+        blocks.reverse()
+    car = []
+    f = lo + 2 * G
+    for bi, (baud, slot, n, off, label) in enumerate(blocks):
+        for _ in range(n):
+            if f + slot > hi:
+                break
+            car.append({'f': f + slot // 2, 'baud': baud, 'slot': slot, 'roll_off': 0.15, 'tx_osnr': 40.0, 'tx_power': 1e-3,
+                        'delta_pdb': off, 'label': label})
+            f += slot
+        f += g['gap'] * G * 2
+    return car
 
 
 def setup_path(case):
@@ -543,7 +634,9 @@ def setup_path(case):
                 any(r and r['variety'] for r in case['net']['desc']['roadms']):
             # the 'detailed_impairments' ROADM of the stock library defines its impairments for 191.3-196.1 THz only
             bands = [(max(lo, 191_300_000_000_000), min(hi, 196_100_000_000_000)) for lo, hi in bands]
-        if case['sim'] == 'raman_ggn':
+        if case['sim'] == 'ggn_approx':
+            car = mixed_rate_comb(case['ggn'], bands)
+        elif case['sim'] == 'raman_ggn':
             # sparse `computed_channels`: the NLI density of the other channels is interpolated in frequency from the
             # computed ones, which is only meaningful for combs of comparable powers (a -30 dBm channel next to a +3 dBm
             # one would be given more NLI than it has power: outside what the property claims) -> +-3 dB spread only
@@ -564,7 +657,14 @@ def setup_path(case):
         lo, hi = bands[-1]
         req.f_min = max(si.f_min, float(lo))
         req.f_max = min(si.f_max, float(hi), req.f_min + (case['nch'] + 0.5) * si.spacing)
-    sim = copy.deepcopy({None: None, 'raman': RAMAN_SIM, 'raman_ggn': RAMAN_SIM_GGN}[case['sim']])
+    sim = copy.deepcopy({None: None, 'raman': RAMAN_SIM, 'raman_ggn': RAMAN_SIM_GGN,
+                         'ggn_approx': GGN_APPROX_SIM}[case['sim']])
+    if case['sim'] == 'ggn_approx':
+        comp = [c for c in case['ggn']['comp'] if c <= len(car)]
+        if len(car) >= 3 and len(comp) >= 2:
+            sim['nli_params']['computed_channels'] = comp
+        else:
+            sim = None          # the band of this path is too narrow for the comb: default NLI method
     if case['sim'] == 'raman_ggn':
         if len(car) < 3:
             # ggn_spectrally_separated fits a parabola through the channel frequencies (numpy polyfit): it cannot
